@@ -22,7 +22,8 @@ fn assertion_kind(i: usize, kind: usize) -> Spec {
         1 => a(k(2000 + b as u64), l(b + 2)),
         2 => n(a(l(b + 1), l(b + 2)), vec![a(l(b + 3), l(b + 4))]), // decorated
         3 => el(a(l(b + 1), l(b + 2))),
-        4 => a(l(b + 1), n(l(b + 2), vec![a(l(b + 3), l(b + 4))])),
+        4 => n(a(l(901), l(902)), vec![a(l(b + 3), l(b + 4))]), // the SAME fact, decorated differently per index
+        5 => a(l(b + 1), n(l(b + 2), vec![a(l(b + 3), l(b + 4))])),
         _ => co(a(l(b + 1), w(l(b + 2)))),
     }
 }
@@ -35,7 +36,7 @@ fn assembly() -> R {
     // every subject case for up to 2 assertions, three of them beyond (bound stated in evidence)
     let sub = &subjects[choice(if nas <= 2 || thorough { subjects.len() } else { 3 })];
     // kinds are symbolic for up to 3 assertions, plain beyond
-    let kinds: Vec<usize> = (0..nas).map(|_| if nas <= 3 { choice(if thorough { 6 } else { 4 }) } else { 0 }).collect();
+    let kinds: Vec<usize> = (0..nas).map(|_| if nas <= 3 { choice(if thorough { 7 } else { 5 }) } else { 0 }).collect();
     let specs: Vec<Spec> = (0..nas).map(|i| assertion_kind(i, kinds[i])).collect();
     let s = build(sub);
     let s_bytes = bytes(&s);
@@ -153,6 +154,24 @@ fn assembly() -> R {
     Ok(())
 }
 
+/// obscured assertion elements whose digests the sender chose: digests that agree in all but the last byte
+fn crafted_digests() -> R {
+    use bc_envelope::base::envelope::EnvelopeCase;
+    let n = 2 + choice(3);
+    let mk = |i: usize| -> Envelope { let mut d = [0xabu8; 32]; d[31] = i as u8; if i == 3 { d[8] = 0; } Envelope::from(EnvelopeCase::Elided(Digest::from_data(d))) };
+    let parts: Vec<Envelope> = (0..n).map(|i| if i == 2 { build(&a(l(5), l(6))) } else { mk(i) }).collect();
+    let s = build(&l(1));
+    let order = perm(n);
+    op("add_assertion_envelope (elided elements with near-equal digests)");
+    let mut e1 = s.clone(); for p in &parts { e1 = must!(e1.add_assertion_envelope(p.clone()), "add refused an elided element"); }
+    let mut e2 = s.clone(); for i in &order { e2 = must!(e2.add_assertion_envelope(parts[*i].clone()), "add refused an elided element"); }
+    ensure!(bytes(&e1) == bytes(&e2), "bytes depend on insertion order", "order {:?} with near-equal digests", order);
+    if let Err(m) = well_formed(&e1) { return rt::viol("assembled envelope not canonical", m); }
+    let back = must!(Envelope::try_from_cbor_data(bytes(&e2)), "decode of own encoding failed");
+    ensure!(bytes(&back) == bytes(&e1), "round trip differs", "");
+    Ok(())
+}
+
 /// unordered collections used as values: equal content, different insertion orders -> equal bytes.
 /// The deciding code is dcbor's map ordering (executed concretely; no digest order involved).
 fn collections() -> R {
@@ -187,8 +206,11 @@ pub fn prop() -> Prop {
         id: "C07",
         scenarios: vec![
             Scenario { name: "assembly", f: assembly, thorough_only: false,
-                bounds: "subject in 7 cases (leaf, known value, wrapped leaf, assertion, wrapped node, elided, compressed) x 1..4 assertions (quick; 1..5 thorough), each of 4 (quick) / 6 (thorough) kinds when <=3 assertions (plain, known-value predicate, decorated, elided; thorough adds node object, compressed), plain beyond x every insertion permutation x one repetition at every place x every digest order; bulk add, add/remove round trips, wrap/unwrap, replace_subject",
+                bounds: "subject in 7 cases (leaf, known value, wrapped leaf, assertion, wrapped node, elided, compressed) x 1..4 assertions (quick; 1..5 thorough), each of 5 (quick) / 7 (thorough) kinds when <=3 assertions (plain, known-value predicate, decorated, elided, the same fact decorated differently; thorough adds node object, compressed), plain beyond x every insertion permutation x one repetition at every place x every digest order; bulk add, add/remove round trips, wrap/unwrap, replace_subject",
                 api: &["Envelope::new", "new_assertion", "add_assertion_envelope", "add_assertion_envelopes", "remove_assertion", "replace_subject", "wrap_envelope", "unwrap_envelope", "elide", "compress", "tagged_cbor", "digest", "is_identical_to"] },
+            Scenario { name: "crafted_digests", f: crafted_digests, thorough_only: false,
+                bounds: "2..4 assertion elements, all but one elided with sender-chosen digests that agree in the first 31 (one: first 8) bytes, every insertion permutation x every digest order",
+                api: &["From<EnvelopeCase> for Envelope", "add_assertion_envelope", "try_from_cbor_data"] },
             Scenario { name: "collections", f: collections, thorough_only: false,
                 bounds: "HashMap / HashSet / dcbor Map / dcbor Set / integer-keyed HashMap with 2..4 entries, every insertion permutation, at subject / predicate / object position. Decided by concrete execution of dcbor's key ordering (reported, not solver-decided)",
                 api: &["EnvelopeEncodable for HashMap/HashSet/Map/Set", "add_assertion"] },
